@@ -5,7 +5,7 @@ import (
 	"sync"
 )
 
-//verif:entry property=C07 tier=both bounds="one Sequential handler (enter; yield; exit; the first invocation may panic) and G concurrent synchronous publishers of one event each (typed or through Publish[any]); every interleaving within the preemption bound" cover="done" G_quick=2 G_thorough=3 preempt_quick=2 preempt_thorough=3 race=on
+//verif:entry property=C07 tier=both bounds="one Sequential handler (enter; yield; exit; the first invocation may panic), optionally behind a Once handler, and G concurrent synchronous publishers of one event each (typed or through Publish[any]); every interleaving within the preemption bound" cover="done" G_quick=2 G_thorough=3 preempt_quick=2 preempt_thorough=3 race=on
 func harnessC07NoOverlapSync() {
 	G := vParam("G", 2)
 	bus := New()
@@ -14,6 +14,10 @@ func harnessC07NoOverlapSync() {
 	seen := map[int]int{}
 	panicFirst := vBool() // the first invocation panics after leaving the critical section
 	first := true
+	if vBool() {
+		// a one-shot handler registered in front of it (retired by whichever publisher fires it)
+		Subscribe(bus, func(e evA) {}, Once())
+	}
 	Subscribe(bus, func(e evA) {
 		mu.Lock()
 		inside++
@@ -125,5 +129,41 @@ func harnessC07ReplayAndLive() {
 	wg.Wait()
 	vJoinAll()
 	vAssert(maxInside <= 1, "sequential-invocations-never-overlap")
+	vCover("done")
+}
+
+type c07Key string
+
+//verif:entry property=C07 tier=both bounds="one Async+Sequential handler (plain or context-aware; enter; yield; exit) whose first invocation publishes one more event of its own type with the context it was given; one initial publish; every interleaving of the dispatch goroutines within the preemption bound" cover="done" preempt_quick=2 preempt_thorough=3 race=on
+func harnessC07SelfPublish() {
+	bus := New()
+	var mu sync.Mutex
+	inside, maxInside := 0, 0
+	seen := map[int]int{}
+	body := func(hc context.Context, e evA) {
+		mu.Lock()
+		inside++
+		if inside > maxInside {
+			maxInside = inside
+		}
+		seen[e.N]++
+		mu.Unlock()
+		if e.N == 1 {
+			PublishContext(bus, hc, evA{N: 2}) // dispatched asynchronously: must wait for this invocation to finish
+		}
+		vYield()
+		mu.Lock()
+		inside--
+		mu.Unlock()
+	}
+	if vBool() {
+		SubscribeContext(bus, func(hc context.Context, e evA) { body(hc, e) }, Async(), Sequential())
+	} else {
+		Subscribe(bus, func(e evA) { body(context.Background(), e) }, Async(), Sequential())
+	}
+	PublishContext(bus, context.WithValue(context.Background(), c07Key("k"), 1), evA{N: 1})
+	bus.Wait()
+	vAssert(maxInside <= 1, "sequential-invocations-never-overlap")
+	vAssert(seen[1] == 1 && seen[2] == 1, "each-event-exactly-once")
 	vCover("done")
 }
